@@ -45,11 +45,13 @@ def pathopD (op : String) (operands : List (String × String)) : DocM String := 
   liftE (Path.print res)
 
 /-- `_resolve_clip_path(url, transform)`; `fuel` = recursion limit -/
-def resolveClipPath (url : String) (T : Aff Float) : (fuel : Nat) → DocM ClipPath
+def resolveClipPathA (active : List Nat) (url : String) (T : Aff Float) : (fuel : Nat) → DocM ClipPath
   | 0 => fail .recursionError
   | fuel + 1 => do
     let root ← getRoot
     let cp ← liftE (resolveUrl root url "clipPath")
+    -- a clipPath met again while it is being resolved: "Circular clip-path reference"
+    if active.contains cp.uid then fail .valueError
     resolveUseIn cp.uid 64
     let root ← getRoot
     let cp := (Node.findUid root cp.uid).getD cp
@@ -69,10 +71,12 @@ def resolveClipPath (url : String) (T : Aff Float) : (fuel : Nat) → DocM ClipP
     let clipD ← pathopD "union" ds
     match cp.getAttr "clip-path" with
     | some inner =>
-      let cc ← resolveClipPath inner T1 fuel
+      let cc ← resolveClipPathA (active ++ [cp.uid]) inner T1 fuel
       let d ← pathopD "intersection" [(clipD, "nonzero"), (cc.d, "nonzero")]
       pure ⟨d⟩
     | none => pure ⟨clipD⟩
+
+def resolveClipPath (url : String) (T : Aff Float) (fuel : Nat) : DocM ClipPath := resolveClipPathA [] url T fuel
 
 /-- breadth-first traversal WITH clip resolution, as `_simplify` enumerates it -/
 def bfsClips : (fuel : Nat) → List SCtx → DocM (List SCtx)
@@ -215,7 +219,8 @@ def simplifyShape (c : SCtx) (defsUid : Nat) : DocM Unit := do
   let p0 ← liftE sh0.asPath
   let dAbs ← liftE (SvgPath.absolute (p0.getS "d"))
   let initial := p0.set "d" (.s dAbs)
-  let paths0 ← if initial.getS "stroke" != "none" then strokeSplit root initial else pure [initial]
+  -- a stroke of zero (or negative) width is no stroke at all
+  let paths0 ← if initial.getS "stroke" != "none" && (0.0 : Float) < initial.getF "stroke_width" then strokeSplit root initial else pure [initial]
   let paths1 := paths0.map resetStrokeFields
   let mut paths2 : List ShapeRec := []
   for p in paths1 do
